@@ -68,7 +68,12 @@ def _local(el):
     return etree.QName(el.tag).localname if isinstance(el.tag, str) else ""
 
 
-def denote_svg(root, tokens) -> List[SvgLeaf]:
+def denote_svg_subtree(root, element, tokens) -> List[SvgLeaf]:
+    """Render only `element` (e.g. the <g id="glyphN">) of the document `root`."""
+    return denote_svg(root, tokens, only=element)
+
+
+def denote_svg(root, tokens, only=None) -> List[SvgLeaf]:
     ids: Dict[str, etree._Element] = {}
     for el in root.iter():
         if isinstance(el.tag, str) and "id" in el.attrib:
@@ -147,6 +152,9 @@ def denote_svg(root, tokens) -> List[SvgLeaf]:
             return
         raise NotImplementedError(tag)
 
+    if only is not None:
+        walk(only, ps.IDENT, (), None, 1)
+        return leaves
     for ch in root:
         walk(ch, ps.IDENT, (), None, 1)
     return leaves
